@@ -158,13 +158,13 @@ PROPS["C20"] = {
 
 RUN_ASSUME = [
     "ghost protocol (run.pre.rs): load::read, Work::new, Work::{lookup,want_file,want_every_file,run} and the two result constructors of run::build are renamed (R9) to trusted stubs carrying a ghost protocol state; the protocol IS the specification (written from the statements of C17/C18/C05/C19) and the bodies of the real callees are elided here -- their own contracts are units sched/dirty/db",
-    "assumed in the stubs: Work::new starts with tasks_run == 0; Work::run only increases tasks_run, by at most 2^32-1; a lookup is a function of the name within one graph generation; the manifest keeps its FileId across generations because load::read interns it first (load::read's body is not under contract: seeded change C17-m2 is NOT detected)",
+    "assumed in the stubs: Work::new starts with tasks_run == 0; Work::run only increases tasks_run, by at most 2^32-1; a lookup is a function of the name within one graph generation; the manifest keeps its FileId across generations because load::read interns it first -- proved in unit load: load::read ensures files[0].name == canon(build_filename) (Loader::new gives an empty graph, the first id_from_canonical call returns FileId(0), parse_with_parser and db::open keep existing names)",
     "R5: trace::scope(name, || f()) is replaced by f(); progress objects, terminal::use_fancy and parse_args are stubs",
     "main.rs (Err => `n2: error:` + exit 1) is 9 lines outside any contract",
 ]
 PROPS["C17"] = {
-    "units": ["run"],
-    "probes": {"run": ["run::build"]},
+    "units": ["run", "load"],
+    "probes": {"run": ["run::build"], "load": ["load::read", "load::Loader::parse_with_parser"]},
     "level": "proof",
     "assumptions": RUN_ASSUME + ["'its generator does not run when the manifest is up to date' and 'results settled during that check are reused consistently' are decided by the dirty check (C03) and by want_file tolerating Done steps (unit sched: mono) -- here only: no reload and no second Work when phase 1 ran nothing"],
 }
@@ -176,7 +176,7 @@ PROPS["C11"] = {
     "assumptions": [
         "DECIDED PART ONLY: the expansion function.  EvalString::evaluate(envs) == ev::eval(parts, envs), the spec function written from the statement (first env that binds the name wins -- even if the value is empty --, the value's own references continue in the FOLLOWING envs only, an unbound name expands to the empty string), for every part list and every env list (envs are arbitrary `dyn Env`s characterised by the uninterpreted `binds`); Vars::get_var is proved against its definition of binds",
         "unit load: Loader::add_build's `lookup` closure is proved (closure postcondition) to return livax::attr -- an attribute bound on the build block is expanded against [file scope] only, otherwise the rule's binding against [$in/$out..., build block, file scope] -- and the in/out path lists are evaluated against [build block, file scope]; BuildImplicitVars::get_var/file_list are proved against implicit_binds/join ($in, $out, $in_newline, $out_newline over the explicit ins/outs); the two SmallMap environments inherit the trait contract (first entry whose key equals the name, via the TRUSTED SmallMap::get / as_cow stubs and per-type `binds` definitions and dynamic-dispatch axioms)",
-        "NOT decided: the parser's eager top-level expansion (parse::Parser::read: evaluate(&[&self.vars]) then insert), include / subninja scope copying (load::parse_with_parser, Parser::inherit), `deps` attribute matching (string-literal patterns inside Some(..) have no Verus meaning).  Defect D9 (an included file does not extend the including scope; reproduced by hand on the binary) lies in that undecided part and is reported in DESIGN.md, not by this check",
+        "NOT decided: the parser's eager top-level expansion (parse::Parser::read: evaluate(&[&self.vars]) then insert), that subninja leaves the including scope untouched and Parser::inherit's copy (stub), `deps` attribute matching (string-literal patterns inside Some(..) have no Verus meaning).  KNOWN FINDING D9: load::parse_with_parser is under contract (unit load) and its include arm fails the clause `what the included file bound is bound afterwards` (include is treated like subninja)",
         "R17: the external bound `T: AsRef<str>` is replaced by the local trait VxAsStr (as_ref -> vx_str) implemented for &str, String, Cow<str>; Cow's view is uninterpreted with one axiom for Cow::Borrowed; String::push_str / reserve carry trusted char-level specs; calc_evaluated_length (capacity hint) is a stub; the hash map behind Vars is a trusted stub",
         "the Env impls for SmallMap<K, EvalString<..>> and SmallMap<&str, String> and BuildImplicitVars ($in/$out) are not under contract",
     ],
@@ -207,12 +207,12 @@ LEVEL_TEXT = {
     },
     "C11": {
         "text": "Unbounded proof (Verus) on the real text of eval.rs EvalString::{evaluate_inner, evaluate} and the Env impl of Vars: the expanded string equals the spec function ev::eval taken from the statement -- literals are copied, a reference is replaced by the expansion of the value found in the first env binding the name, that value being expanded against the envs AFTER that one only, and by nothing if no env binds it -- for all part lists and all lists of arbitrary environments; the mutual recursion terminates (decreases on the env list).",
-        "note": "Only the expansion function is decided.  Which envs each caller passes (add_build's lookup order, eager top-level expansion, include/subninja scope) is not under contract; D9 (include does not extend the including scope) is a documented defect in that undecided part.",
+        "note": "Expansion function (unit eval) + add_build's scoping order, path env lists and $in/$out (unit load).  KNOWN-FINDING D9 printed on the unchanged tree (include does not extend the including scope).  Eager top-level expansion in the parser is not under contract.",
         "design_ref": "DESIGN.md §6 C11",
     },
     "C17": {
         "text": "Unbounded proof (Verus) on the real text of run::build against a ghost protocol threaded through its calls (typestate preconditions on trusted stubs of load::read / Work::new / lookup / want_file / want_every_file / run): the manifest name is looked up first and, if the graph knows it, wanted and run before any other want; a second load::read happens only directly after that run returned true having executed commands, reads the same file, and is followed by a fresh Work; after any command ran, the old Work is never looked up, wanted or run again (targets, graph and dirtiness come from the new text only); ids used in want_file were resolved in the current generation (the manifest's own id excepted); after a run that returned false nothing is loaded, wanted or run and the result is Ok(None). Every path through build for every outcome of every call.",
-        "note": "The protocol stubs are the trusted specification; load::read's body (that the manifest is interned first, C17-m2) and main.rs are not under contract.",
+        "note": "The protocol stubs are the trusted specification; unit load proves load::read interns the manifest first (FileId 0 in every generation).  main.rs and the file-reading helpers (read_file_by_id: that the text parsed is the file's current content) are not under contract.",
         "design_ref": "DESIGN.md §6 C17",
     },
     "C20": {
